@@ -42,6 +42,12 @@ CHECKS = {
  "C10": dict(tech="TLC model checking of Levels.tla (LookupCorrect over all tables of a small universe) + replay of every TLC scenario on the real tables + TLC trace validation against TraceLookup.tla",
     text="For every set of versions distributed over tables, every block size (1-3 entries), every (key, ts) query and both bloom-filter answers for absent keys, TLC checks that filter -> block lower bound -> in-block lower bound -> same-key test -> best over tables equals the newest version <= ts. The scenarios are replayed on the real level manager (also after rebuilding the handles from the files) and compared with the spec's answers.",
     note="exhaustive for 2 keys x 2 versions (<= 2 tables); thorough adds 2x3 and 3x2 single tables; bloom false positives are covered in the model only (the real filter is not forced into one)"),
+ "C11": dict(tech="TLC model checking of Codec.tla (field layout with width-limited lengths) and Pool.tla (buffer ownership) + TLC trace validation of real encode/decode results against TraceCodec.tla",
+    text="Codec.tla enumerates all entry lists of a small class universe through an abstract Data.Encode/Decode with W-bit length fields (RoundTrip holds iff every length fits; the truncation is pinpointed otherwise) and Pool.tla checks that no returned result aliases a pooled buffer. The real codecs are driven with lists built from the same classes at the real boundaries (16-bit), and returned slices are re-compared after concurrent encoder/wal activity; TLC judges the recorded results against the contract (always equal).",
+    note="the family fits this property least: byte strings are sampled per class; known finding D11 (lengths >= 65536 truncated) is reported as KNOWN-FINDING"),
+ "C16": dict(tech="TLC model checking of Filter.tla (no false negative for arbitrary hash functions) + TLC trace validation of real filter.Build/Contains and recovery-rebuilt filters against TraceFilter.tla",
+    text="Filter.tla proves, for every assignment of hash functions of a small instance, that an added key is never denied, and flags mismatched seeds and the versioned-vs-user key pairing. The real filter is built from generated entry sets (1..50000 entries, five key shapes, several versions per key) and queried for every member, directly and through a table file whose handle is rebuilt by recovery; TLC validates the aggregate events.",
+    note="essentially a pure function: the model adds the contract and the ParseKey pairing; hashing arithmetic is exercised, not modelled"),
  "C12": dict(tech="TLC trace validation of concurrent histories produced under the Go race detector (sensor for the lock discipline)",
     text="Concurrent scenarios (thresholds down to 1 byte, queue length 0..4, seeded delays at hook points) run in a harness built with -race; a race report or panic is a violation, and every recorded history must be accepted by AbsTxn.tla.",
     note="the memory-model clause is decided by the race detector for the schedules executed, not for all schedules; TLA+ contributes the allowed-results oracle"),
